@@ -81,6 +81,13 @@ def rule_options(chk, ci, classes):
                      detail='branch for %r can never be selected (not among the choices)' % h)
     chk.floor('--nnps choices', len(choices), 10)
     # constructor agreement
+    cpu_ctors = [c_ for n_, (x_, c_) in branches.items() if n_ not in GPU_ONLY and c_ is not None]
+    # a keyword that several algorithms take and that every one of them is given alike
+    by_kw = {}
+    for c_ in cpu_ctors:
+        for k in c_.keywords:
+            by_kw.setdefault(k.arg, []).append(inl(k.value))
+    shared_kw = set((k_, v_[0]) for k_, v_ in by_kw.items() if len(v_) >= 3 and len(set(v_)) == 1)
     for nm, (node, ctor) in sorted(branches.items()):
         if nm in GPU_ONLY or ctor is None:
             continue
@@ -98,6 +105,16 @@ def rule_options(chk, ci, classes):
             chk.decide(kws.get(k) in wants, 'nnps-constructor-agreement', '%s:%s' % (nm, k), node=ctor, file=APP, func='Application._configure_solver',
                        detail_bad='%s(%s=%s): every algorithm must receive %s=%s, otherwise runs differ by algorithm' % (cname, k, kws.get(k), k, want),
                        detail_ok='%s=%s' % (k, want))
+        # the algorithm's own knobs (H, table sizes, levels, the approximate mask ...) are the user's options as given: nothing else of the run (a fixed h, the dimension ...)
+        # switches a search to a different accuracy behind the user's back
+        import re as _re
+        for k, v in sorted(kws.items()):
+            if k in COMMON_KW or (k, v) in shared_kw:
+                continue            # (what every algorithm is given alike - fixed_h - cannot make them differ)
+            plain = bool(_re.match(r'^self\.options\.\w+$', v or '')) or v in ('True', 'False', 'None') or bool(_re.match(r'^[0-9.]+$', v or ''))
+            chk.decide(plain, 'nnps-constructor-agreement', '%s:%s-as-given' % (nm, k), node=ctor, file=APP, func='Application._configure_solver',
+                       detail_bad='%s(%s=%s): the knob is not the plain command-line option - another setting of the run changes which neighbours this algorithm finds while the other '
+                                  'algorithms are unaffected, so results depend on --nnps' % (cname, k, v), detail_ok='%s=%s' % (k, v))
         unknown = [k for k in kws if params is not None and k not in params]
         chk.decide(not unknown and not ctor.args, 'nnps-constructor-agreement', '%s:accepted-keywords' % nm, node=ctor, file=APP,
                    func='Application._configure_solver',
@@ -433,6 +450,8 @@ def main(chk):
     c01.rule_cell_counts(chk)
     # no particle sits on the outer face of the binning box (cell index = number of cells: found by some algorithms, folded into the next row by others)
     c01.rule_bounds(chk)
+    # ... and the look-up tables are built from the particles of this update alone (rule shared with C01 / C17)
+    c01.rule_tables_emptied(chk)
     # the hash tables behind sh / esh / strat_hash keep and find every occupied cell (rule shared with C01)
     c01.rule_cxx_headers(chk)
     # every algorithm finds the same cells as the others: cell ids keep their width from binning to look-up, and a query decodes the source array with the source array's layout
